@@ -70,8 +70,24 @@ Fixpoint until_brace (ts : list token) : bool :=
   end.
 Definition follow_throws : follow_fn := fun ts j =>
   sym_at ts j lbrace || (kw_at ts j s_throws && until_brace (skipn (S j) ts)).
+(* a TypeScript return type (GD26): balanced parenthesis groups (function types) and tokens whose text is none of
+   ";" "{" "(" ")", up to the symbol "{"; depth = nesting inside a group, where every token is consumed *)
+Fixpoint until_brace_type (ts : list token) (depth : Z) : bool :=
+  match ts with
+  | [] => false
+  | t :: r =>
+      if 0 <? depth then
+        (if is_symbol t lparen then until_brace_type r (depth + 1)
+         else if is_symbol t rparen then until_brace_type r (depth - 1)
+         else until_brace_type r depth)
+      else if is_symbol t lparen then until_brace_type r 1
+      else if is_symbol t lbrace then true
+      else if pystr_eqb (t_value t) lbrace || pystr_eqb (t_value t) s_semi
+              || pystr_eqb (t_value t) lparen || pystr_eqb (t_value t) rparen then false
+      else until_brace_type r 0
+  end.
 Definition follow_rettype : follow_fn := fun ts j =>
-  sym_at ts j lbrace || (op_at ts j s_colon && until_brace (skipn (S j) ts)).
+  sym_at ts j lbrace || (op_at ts j s_colon && until_brace_type (skipn (S j) ts) 0).
 
 (* leftmost non-overlapping selection of the accepted candidates, in start order *)
 Fixpoint select_shape (c : cand_fn) (f : follow_fn) (ts : list token) (positions : list nat) (last_end : nat) : list header :=
